@@ -509,3 +509,153 @@ def history_rule(chk, files, rule):
         if not bad:
             chk.proven(rule, rel, '<module>', 'no function writes module-, class- or default-argument state (or only complete caches)',
                        f'{a.nfuncs} functions on the property\'s path: {sorted(scope)[:12]}', nontrivial=False)
+
+
+# ------------------------------------------------------------------------------------------------------------------
+# Caller-owned containers.  A function may not change a dict / list it was handed (pop, clear, update, append, del x[k] ...)
+# unless the object is its own: a **kwargs dictionary, or a name re-bound to a fresh copy on every path before the mutation.
+# Subscript stores are not counted (output arrays are written by design).  A private helper is judged at its call sites: it is
+# a finding only if some caller inside the module passes on an object that the caller itself only borrowed.
+ARG_MUTATORS = {'pop', 'popitem', 'clear', 'update', 'setdefault', 'append', 'extend', 'insert', 'remove', 'sort', 'reverse', 'discard', 'add'}
+FRESH_CALLS = {'dict', 'list', 'set', 'sorted', 'tuple', 'copy.copy', 'copy.deepcopy', 'np.array', 'np.copy', 'OrderedDict'}
+
+
+def _fresh_value(v, borrowed):
+    if isinstance(v, (ast.Dict, ast.List, ast.Set, ast.DictComp, ast.ListComp, ast.SetComp, ast.Constant, ast.Tuple)):
+        return True
+    if isinstance(v, ast.Call):
+        cn = unparse(v.func)
+        if cn in FRESH_CALLS:
+            return True
+        if isinstance(v.func, ast.Attribute) and v.func.attr in ('copy', 'tolist', 'keys', 'values', 'items'):
+            return True
+    if isinstance(v, ast.Name):
+        return v.id not in borrowed
+    return False
+
+
+def argument_mutations(fn):
+    """[(param, node)] -- mutations of a container parameter reachable while the name still denotes the caller's object."""
+    a = fn.args
+    params = [x.arg for x in a.posonlyargs + a.args + a.kwonlyargs if x.arg not in ('self', 'cls')]
+    out = []
+
+    def walk(stmts, borrowed):
+        borrowed = set(borrowed)
+        for s in stmts:
+            if isinstance(s, (ast.FunctionDef, ast.AsyncFunctionDef, ast.ClassDef)):
+                continue
+            if isinstance(s, (ast.If, ast.While, ast.For)):
+                hd = s.test if isinstance(s, (ast.If, ast.While)) else s.iter
+                for n in ast.walk(hd):
+                    if isinstance(n, ast.Call) and isinstance(n.func, ast.Attribute) and n.func.attr in ARG_MUTATORS and isinstance(n.func.value, ast.Name) \
+                            and n.func.value.id in borrowed:
+                        out.append((n.func.value.id, n))
+            if isinstance(s, ast.If):
+                b1 = walk(s.body, borrowed)
+                b2 = walk(s.orelse, borrowed)
+                borrowed = b1 | b2
+                continue
+            if isinstance(s, (ast.For, ast.While)):
+                b1 = walk(s.body, borrowed)
+                borrowed = borrowed | b1
+                walk(s.orelse, borrowed)
+                continue
+            if isinstance(s, ast.With):
+                borrowed = walk(s.body, borrowed)
+                continue
+            if isinstance(s, ast.Try):
+                b = walk(s.body, borrowed)
+                for h in s.handlers:
+                    b |= walk(h.body, borrowed)
+                borrowed = walk(s.finalbody, walk(s.orelse, b))
+                continue
+            # mutations in this simple statement (evaluated before any rebinding it performs)
+            for n in ast.walk(s):
+                if isinstance(n, ast.Call) and isinstance(n.func, ast.Attribute) and n.func.attr in ARG_MUTATORS and isinstance(n.func.value, ast.Name) \
+                        and n.func.value.id in borrowed:
+                    out.append((n.func.value.id, n))
+                if isinstance(n, ast.Delete):
+                    for t in n.targets:
+                        if isinstance(t, ast.Subscript) and isinstance(t.value, ast.Name) and t.value.id in borrowed:
+                            out.append((t.value.id, n))
+            if isinstance(s, (ast.Assign, ast.AnnAssign)) and getattr(s, 'value', None) is not None:
+                tg = s.targets if isinstance(s, ast.Assign) else [s.target]
+                for t in tg:
+                    if isinstance(t, ast.Name) and t.id in params:
+                        if _fresh_value(s.value, borrowed):
+                            borrowed.discard(t.id)
+                        else:
+                            borrowed.add(t.id)
+        return borrowed
+    walk(fn.body, set(params))
+    return out
+
+
+def borrowed_argument_rule(chk, rel, scope, rule):
+    """Obligations: inside `scope` (qualified names of `rel`) no function changes a dict / list that belongs to its caller."""
+    tree = chk.src.tree(rel)
+    table = {}
+    for s in tree.body:
+        if isinstance(s, (ast.FunctionDef, ast.AsyncFunctionDef)):
+            table[s.name] = (s, None)
+        elif isinstance(s, ast.ClassDef):
+            for c in s.body:
+                if isinstance(c, (ast.FunctionDef, ast.AsyncFunctionDef)):
+                    table[f'{s.name}.{c.name}'] = (c, s.name)
+    muts = {q: argument_mutations(fn) for q, (fn, _) in table.items()}
+    n = 0
+    for q in sorted(scope):
+        if q not in table or not muts[q]:
+            continue
+        fn, cls = table[q]
+        pos = [x.arg for x in fn.args.posonlyargs + fn.args.args if x.arg not in ('self', 'cls')]
+        private = fn.name.startswith('_') and not fn.name.startswith('__')
+        for p, node in muts[q]:
+            n += 1
+            owners = []
+            if private:
+                # every call site inside the module: is the object handed over the caller's own?
+                for cq, (cf, ccls) in table.items():
+                    ca = cf.args
+                    cparams = {x.arg for x in ca.posonlyargs + ca.args + ca.kwonlyargs if x.arg not in ('self', 'cls')}
+                    varkw = ca.kwarg.arg if ca.kwarg else None
+                    for c in ast.walk(cf):
+                        if not isinstance(c, ast.Call):
+                            continue
+                        callee = None
+                        if isinstance(c.func, ast.Name) and c.func.id == fn.name and cls is None:
+                            callee = True
+                        elif isinstance(c.func, ast.Attribute) and c.func.attr == fn.name and isinstance(c.func.value, ast.Name) and c.func.value.id in ('self', 'cls') and cls == ccls:
+                            callee = True
+                        if not callee:
+                            continue
+                        arg = None
+                        if p in pos and pos.index(p) < len(c.args):
+                            arg = c.args[pos.index(p)]
+                        for k in c.keywords:
+                            if k.arg == p:
+                                arg = k.value
+                        if arg is None:
+                            continue
+                        # names of the caller that denote an object it only borrowed: its parameters (not **kwargs) and locals bound to one
+                        cb = set(cparams) - {varkw}
+                        for _ in range(3):
+                            for s_ in ast.walk(cf):
+                                if isinstance(s_, ast.Assign) and len(s_.targets) == 1 and isinstance(s_.targets[0], ast.Name) and isinstance(s_.value, ast.Name) \
+                                        and s_.value.id in cb:
+                                    cb.add(s_.targets[0].id)
+                        if isinstance(arg, ast.Name) and arg.id in cb:
+                            # borrowed unless the caller re-bound that name to a fresh object, unconditionally, before the call
+                            uncond = [s_ for s_ in cf.body if isinstance(s_, ast.Assign) and any(isinstance(t, ast.Name) and t.id == arg.id for t in s_.targets)
+                                      and s_.lineno < c.lineno and _fresh_value(s_.value, cb)]
+                            if not uncond:
+                                owners.append(f'{cq} passes on {arg.id}, which it was given itself')
+                        elif isinstance(arg, ast.Attribute):
+                            owners.append(f'{cq} passes {unparse(arg)}')
+            else:
+                owners.append('public function: the argument is the user\'s object')
+            chk.check(not owners, rule, rel, q, f'{unparse(node)[:50]}: the container {p} changed here is the function\'s own', 'every call site passes a fresh object',
+                      f'{unparse(node)[:60]} changes the caller\'s {p} ({"; ".join(owners[:2])}): a second call with the same object sees a different request '
+                      '(e.g. a reused `subsamples` dict selects nothing the second time)', node=node, nontrivial=False)
+    return n
